@@ -1,6 +1,7 @@
 package main
 
 import (
+	"os"
 	"go/ast"
 	"fmt"
 	"go/token"
@@ -493,6 +494,8 @@ type loopMods struct {
 	// cells: writes known at cell granularity (a field of a struct reached through a loop-invariant pointer, or the
 	// field/slice targets of a callee's modifies clause with loop-invariant arguments): obj, [lo, hi)
 	cells map[Sort][][3]string
+	// ghostCells: some recorded cell belongs to a ghost variable (updated by a callee's contract inside the loop)
+	ghostCells bool
 }
 
 func (e *Enc) loopModifies(li *loopInfo) *loopMods {
@@ -619,7 +622,7 @@ func (e *Enc) loopModifies(li *loopInfo) *loopMods {
 				}
 			case ssa.CallInstruction:
 				lm.allocs = true
-				if e.callCells(x, inLoop, lm) {
+				if os.Getenv("GOVC_NOCELLS") == "" && e.callCells(x, inLoop, lm) {
 					continue
 				}
 				eff := e.callEffect(x)
@@ -636,7 +639,7 @@ func (e *Enc) loopModifies(li *loopInfo) *loopMods {
 				// range over a string: the iterator object's position cell advances
 				if x.IsString {
 					if it, ok := e.vals[x.Iter]; ok && !it.Bad && len(it.L) == 1 {
-						lm.cells[SI] = append(lm.cells[SI], [3]string{it.L[0], e.M.ilit(0), e.M.ilit(1)})
+						lm.cells[SIter] = append(lm.cells[SIter], [3]string{it.L[0], e.M.ilit(0), e.M.ilit(1)})
 					}
 				}
 			case *ssa.MapUpdate, *ssa.Send:
@@ -732,8 +735,20 @@ func (e *Enc) callCells(c ssa.CallInstruction, inLoop func(ssa.Value) bool, lm *
 	var out []rng
 	for _, mc := range ct.Modifies {
 		if id, ok := mc.Expr.(*ast.Ident); ok {
-			if _, isGhost := e.CS.Ghosts[id.Name]; isGhost {
-				continue // ghost variables are preserved or updated by the contract itself
+			if gt, isGhost := e.CS.Ghosts[id.Name]; isGhost {
+				// a ghost variable the callee's contract updates: its cells change in the loop
+				t := e.resolveType(pkg, gt)
+				if t == nil {
+					t = e.resolveType(e.Pkg, gt)
+				}
+				if t == nil {
+					return false
+				}
+				sorts := map[Sort]bool{}
+				e.allSorts(t, sorts)
+				out = append(out, rng{sorts, [3]string{e.ghostObj(id.Name), e.M.ilit(0), e.M.ilit(slots(t))}})
+				lm.ghostCells = true
+				continue
 			}
 		}
 		if ix, isIx := mc.Expr.(*ast.IndexExpr); isIx {
@@ -797,9 +812,51 @@ func (e *Enc) loopHead(li *loopInfo, st *State, phiIn map[ssa.Value]Val) {
 	}
 	// 2. havoc what the loop modifies
 	lm := e.loopModifies(li)
-	if lm.all {
+	anyUnknown := false
+	for s := range lm.sorts {
+		if lm.unk[s] || len(lm.sorts[s]) == 0 {
+			anyUnknown = true
+		}
+	}
+	if lm.all || (anyUnknown && lm.ghostCells) {
+		// a call that may write anything (or a write through an unknown base): everything a callee can reach becomes
+		// arbitrary. What havocAll keeps (ghost variables, locals whose address does not escape, objects declared
+		// stable) is then made arbitrary as well wherever the loop itself writes it: the known store bases and the
+		// cells recorded from stores and from callee contracts.
 		e.curInstr = b.Instrs[0]
 		e.havocAll(st)
+		var ks []string
+		for s := range lm.sorts {
+			ks = append(ks, string(s))
+		}
+		sort.Strings(ks)
+		for _, s0 := range ks {
+			seen := map[string]bool{}
+			for _, bo := range lm.sorts[Sort(s0)] {
+				if !seen[bo] {
+					seen[bo] = true
+					e.havocObj(st, Sort(s0), bo)
+				}
+			}
+		}
+		ks = nil
+		for s := range lm.cells {
+			ks = append(ks, string(s))
+		}
+		sort.Strings(ks)
+		for _, s0 := range ks {
+			s := Sort(s0)
+			for _, c := range lm.cells[s] {
+				h := e.heap(st, s)
+				arr := e.fresh("A_" + s0)
+				e.emitDecl(fmt.Sprintf("(declare-const %s (Array %s %s))", arr, m.smtSort(SI), m.smtSort(s)))
+				e.emitAssert(-1, fmt.Sprintf("(forall ((k %s)) (! (=> (not (and %s %s)) (= (select %s k) (select (select %s %s) k))) :pattern ((select %s k))))",
+					m.smtSort(SI), m.ile(c[1], "k"), m.ilt("k", c[2]), arr, h, c[0], arr))
+				nh := e.fresh("H_" + s0)
+				e.emitDecl(fmt.Sprintf("(define-fun %s () %s (store %s %s %s))", nh, e.heapSort(s), h, c[0], arr))
+				st.H[s] = nh
+			}
+		}
 	} else {
 		sortSet := map[string]bool{}
 		for s := range lm.sorts {
